@@ -45,7 +45,16 @@ pub fn all_yields() -> Vec<String> {
 
 /// random subset of the stage yield points ("buggify": a random subset of sites per run)
 pub fn pick_yields(rng: &mut Rng) -> Vec<String> {
-    all_yields().into_iter().filter(|_| rng.chance(1, 2)).collect()
+    let mut v: Vec<String> = all_yields().into_iter().filter(|_| rng.chance(1, 2)).collect();
+    // platform knobs (not yield points; same list because they are per-run switches of the world):
+    // a short absolute path for the served directory, another user than the files' owner
+    if rng.chance(1, 4) {
+        v.push("short_docroot".into());
+    }
+    if rng.chance(1, 6) {
+        v.push("other_user".into());
+    }
+    v
 }
 
 // ------------------------------------------------------------------------------------------ trees
@@ -663,8 +672,22 @@ v
         56 => {
             // request headers that exist in the wild and that this server has never heard of, with the
             // values that switch things on
-            let (n, v) = *rng.pick(super::real::SWITCH_HEADERS);
-            ("switch_header", req(*rng.pick(&["GET", "OPTIONS", "OPTIONS", "HEAD", "POST"]), t, &[("Origin", "http://a.example"), ("Access-Control-Request-Method", "GET"), (n, v)], b""))
+            match rng.below(3) {
+                0 => {
+                    // the fetch-metadata set of a browser, any site x mode x destination
+                    let hs = super::real::fetch_metadata(rng);
+                    let hr: Vec<(&str, &str)> = hs.iter().map(|(n, v)| (n.as_str(), v.as_str())).collect();
+                    ("fetch_metadata", req(*rng.pick(&["GET", "GET", "OPTIONS", "HEAD"]), t, &hr, b""))
+                }
+                1 => {
+                    let (n, v) = *rng.pick(super::real::FETCH_BUNDLES);
+                    ("header_bundle", req(*rng.pick(&["GET", "GET", "OPTIONS", "HEAD"]), t, &[(n, v)], b""))
+                }
+                _ => {
+                    let (n, v) = *rng.pick(super::real::SWITCH_HEADERS);
+                    ("switch_header", req(*rng.pick(&["GET", "OPTIONS", "OPTIONS", "HEAD", "POST"]), t, &[("Origin", "http://a.example"), ("Access-Control-Request-Method", "GET"), (n, v)], b""))
+                }
+            }
         }
         51 => {
             let (n, v) = *rng.pick(super::real::CONDITIONAL_HEADERS);
@@ -808,10 +831,10 @@ pub fn transport_fault(rng: &mut Rng, c: &mut Conn, enabled: &[&str]) {
             c.faults.accept_err = Some(*rng.pick(&[IoKind::ConnectionAborted, IoKind::TooManyFiles]));
         }
         "addr_err" => {
-            if rng.chance(1, 2) {
-                c.faults.peer_addr_err = true;
-            } else {
-                c.faults.local_addr_err = true;
+            match rng.below(3) {
+                0 => c.faults.peer_addr_err = true,
+                1 => c.faults.local_addr_err = true,
+                _ => c.faults.dup_err = true,
             }
         }
         "handler_err" => {
